@@ -620,10 +620,7 @@ class CallMixin(object):
                     return NAN
                 if f_ in (float("inf"), float("-inf")):
                     return Flt(Fraction(10) ** 400 * (1 if f_ > 0 else -1))
-                try:
-                    return Flt(Fraction(s_.strip().replace("_", "")))
-                except (ValueError, ZeroDivisionError):
-                    return Flt(Fraction(f_))
+                return Flt(Fraction(f_))  # the double float() really returns (7.50000000000000000000001 -> 7.5)
 
             r = fo.fold(conv, [r0])
             errs = fo.fold(lambda s_: conv(s_) is ERR, [r0])
@@ -751,10 +748,24 @@ class CallMixin(object):
             if isinstance(x, Fin) and is_discrete(x) and strish(x):
                 def d(s):
                     try:
-                        return Dec(Fraction(s.strip()), s)
+                        t_ = s.strip().replace("_", "")
+                        if t_.lower().lstrip("+-") in ("nan", "snan"):
+                            return NAN
+                        if t_.lower().lstrip("+-") in ("inf", "infinity"):
+                            return Dec(Fraction(10) ** 400 * (-1 if t_.startswith("-") else 1), s)
+                        return Dec(Fraction(t_), s)
                     except Exception:
                         return ERR
-                return st.folder().fold(d, [x])
+                fo_ = st.folder()
+                r_ = fo_.fold(d, [x])
+                errs_ = fo_.fold(lambda s_: d(s_) is ERR, [x])
+                if not (isinstance(errs_, Const) and not errs_.v):
+                    self.hazard(st, "InvalidOperation", node, module, errs_, "Decimal() of a non-numeric string")
+                    if isinstance(errs_, Const):
+                        raise Dead()
+                    self.assume(st, mk_not(errs_))
+                    r_ = st.folder().restrict(r_) if isinstance(r_, Fin) else r_
+                return r_
             p = self.to_poly(st, x, node, module)
             if p.kind in ("flt", "mixed"):
                 self.event("decimal_from_float", node, module, st)
